@@ -1,6 +1,8 @@
 package main
 
 import (
+	"iter"
+	"math"
 	"math/big"
 
 	v1 "github.com/keep94/sqroot"
@@ -113,6 +115,35 @@ func exerciseViews(x Num, n int) {
 	}
 }
 
+// iterateDigits reads up to n digits with the version's forward iterator (v1 FullIterator, v2 Iterator, v3 All);
+// positions must be consecutive from 0 (a gap is reported as the digit 98).
+func iterateDigits(x Num, n int) (ds []int, ended bool) {
+	next := func() (int, int, bool) { return 0, 0, false }
+	switch y := x.(type) {
+	case *v1.Number:
+		it := y.FullIterator()
+		next = func() (int, int, bool) { d, ok := it(); return d.Position, d.Value, ok }
+	case *v2.Number:
+		it := y.Iterator()
+		next = func() (int, int, bool) { d, ok := it(); return d.Position, d.Value, ok }
+	case v3.Number:
+		nx, stop := iter.Pull2(y.All())
+		defer stop()
+		next = nx
+	}
+	for len(ds) < n {
+		p, d, ok := next()
+		if !ok {
+			return ds, true
+		}
+		if p != len(ds) {
+			d = 98
+		}
+		ds = append(ds, d)
+	}
+	return ds, false
+}
+
 // observeDigits: "Z" for the zero number, else "N exponent k d1..dk ended", reading positions 0..n-1 with At.
 func observeDigits(x Num, n int) []string {
 	var t toks
@@ -129,13 +160,21 @@ func observeDigits(x Num, n int) []string {
 	}
 	var ds []int
 	ended := false
-	for p := 0; p < n; p++ {
-		d := x.At(p)
-		if d == -1 {
-			ended = true
-			break
+	if n%3 == 2 {
+		// the same digits through the forward iterator of a fresh Number (nothing memoised yet when it is created)
+		ds, ended = iterateDigits(x, n)
+	} else {
+		for p := 0; p < n; p++ {
+			d := x.At(p)
+			if d == -1 {
+				ended = true
+				break
+			}
+			ds = append(ds, d)
 		}
-		ds = append(ds, d)
+	}
+	if ended && (x.At(math.MaxInt) != -1 || x.At(-1) != -1 || x.At(len(ds)) != -1 || x.At(math.MaxInt-1) != -1) {
+		ds = append(ds, 99) // positions at or beyond the end of a finite Number, however far, hold no digit
 	}
 	t.ints(ds)
 	t.bool(ended)
